@@ -15,6 +15,7 @@ from ..effects import Effects, callee, roots
 from .. import preds, sym
 from ..preds import Scope, canon
 from ..sym import Interp, Unsupported, Struct
+from ..wsdef import WsDef
 from .common import facts_for, optimizer_classes, optimizer_spline_order, strip_copy, is_this_mem, lit_value, write_rhs
 from . import c12
 
@@ -398,10 +399,16 @@ def check_spatial_and_time(chk, F, cls, f, sc, is_guess):
             if any("toPhysical" in r for _, r in txt):
                 ok = len(txt) == 1 and txt[0][0].endswith("cache_waypoints.row(%var.point_index)") and txt[0][1] == "SM.toPhysical($p0.%s,%%var.point_index).transpose()" % seg
                 chk.ob("C09-R2", "%s %s: waypoint point_index <- toPhysical(x[offset, offset+dof))" % (cls, inst), ok, loc(f, lp), str(txt), construct="%s/%s/spatial-decode" % (cls, inst))
-                # R4: waypoints start as a copy of the reference right before this loop
+                # R4: when the decode loop starts, the waypoint buffer is wholly defined, on every path, as a copy of the reference
                 idx = f["body"]["body"].index(lp)
-                prev = f["body"]["body"][idx - 1]
-                okc = prev.get("k") == "expr" and prev["e"].get("k") == "call" and callee(prev["e"]).get("op") == "=" and canon(prev["e"]["obj"], sc).endswith("cache_waypoints") and canon(prev["e"]["args"][0], sc) == "this.ref_waypoints_"
+                wsrec = cls + "::Workspace"
+                W = WsDef(F, cls, wsrec, next(x["ty"]["n"] for x in F.record(wsrec)["fields"] if x["name"] == "spline"), {})
+                W.fn_stack.append(f)
+                W.stmts(f["body"]["body"][:idx])
+                d = W.defs.get("cache_waypoints")
+                prev = d[0] if d else lp
+                okc = W.state.get("cache_waypoints") == "D" and d is not None and d[1] == "assignment" and prev.get("k") == "call" and canon(prev["args"][0], sc) == "this.ref_waypoints_"
+                prev = {"e": prev, "line": prev.get("line")}
                 chk.ob("C09-R4", "%s %s: decoded waypoints start as a copy of the reference; only layout entries are overwritten" % (cls, inst), okc, loc(f, prev), pp(prev.get("e")), construct="%s/%s/pinning-waypoints" % (cls, inst))
             else:
                 want = {("$p1." + seg, "SM.backwardGrad($p0.%s,%s,0)" % (seg, "G")), }
